@@ -5,7 +5,8 @@ CONFIG = {
     "level_text": "Lean theorems over a process model of streams.PipeData, its callers and the per-session accept loop, for all "
                   "schedules (every interleaving of the two copiers, main, the caller and the environment) and all data scenarios: "
                   "with buffered result channels both copier goroutines exit once PipeData has returned; every connection object of "
-                  "the pair is closed; the accept loop ends on every sticky session error. The code-dependent parameters (channel "
+                  "the pair is closed; the accept loop ends on every sticky session error; a session whose handshake was refused is closed whatever its peer does next "
+                  "(the refusal branch of AcceptConnection only logs and closes: regenerated fact). The code-dependent parameters (channel "
                   "capacity, which ends each select arm closes, whether muxHandler closes the target, the accept loop's error "
                   "handling) are regenerated from the source; witnesses show the leak / open target / busy loop for the old values. "
                   "Partial: goroutines, descriptors and CPU of the real runtime are observed by the correspondence, not proved.",
@@ -19,7 +20,8 @@ CONFIG = {
                    {"name": "life", "timeout": {"quick": 600, "thorough": 1800}}],
     "rule": "pipe: 15 enumerated scenario scripts x {PipeData alone, server per-stream path} plus random scripts of write/close events "
             "with boundary sizes; life: N sequential logical connections (either side closing) on tcp/ws (thorough: more carriers, N up "
-            "to 100), then session ending none/cut/garbage; non-trivial = data moved / connections completed; distinct = distinct op line",
+            "to 100), then session ending none/cut/garbage; N raw peers violating the handshake that keep their end open / hang up "
+            "(goroutines, descriptors per refused session, server-side close seen by every peer); non-trivial = data moved / connections completed; distinct = distinct op line",
     "trusted_base": COMMON_TB + ["Go runtime, net.Pipe, smux, go-multistream (outside the model)"],
     "assumptions": ["goroutine census by function name (streams.pipeData) and by total count at quiescent points",
                     "busy loop = more than half a core used by the idle process over 0.7 s"],
